@@ -50,12 +50,15 @@ Definition agree (m : outcome) (i : iobs) : bool :=
    engine by calling strconv / math directly (and AsString for object rendering) *)
 Record oracle := {
   o_pf : list (string * option float);
+  o_pi : list (string * option Z);
   o_ff : list (float * string);
   o_pow : list (float * float * float);
   o_ostr : list (bool * nat * string)
 }.
 Fixpoint look_pf (s : string) (l : list (string * option float)) : option float :=
   match l with [] => None | (k, v) :: r => if String.eqb k s then v else look_pf s r end.
+Fixpoint look_pi (s : string) (l : list (string * option Z)) : option Z :=
+  match l with [] => None | (k, v) :: r => if String.eqb k s then v else look_pi s r end.
 Fixpoint look_ff (f : float) (l : list (float * string)) : string :=
   match l with [] => "?unformatted?"%string | (k, v) :: r => if same_float k f then v else look_ff f r end.
 Fixpoint look_pow (a b : float) (l : list (float * float * float)) : float :=
@@ -70,6 +73,7 @@ Fixpoint look_ostr (c : bool) (id : nat) (l : list (bool * nat * string)) : stri
   end.
 Definition lib_of (o : oracle) : golib :=
   {| parse_float := fun s => look_pf s (o_pf o);
+     parse_int := fun s => look_pi s (o_pi o);
      fmt_float := fun f => look_ff f (o_ff o);
      pow_float := fun a b => look_pow a b (o_pow o);
      obj_str := fun c id => look_ostr c id (o_ostr o) |}.
@@ -91,7 +95,7 @@ Definition check_op (lib : golib) (same : bool) (d i : nat) (o : binop) (l r : v
   let base := (d * 2400 + i * 100)%nat in
   let m := binop_eval lib same o l r in
   (if agree m ob then [] else [(base + 1)%nat]) ++
-  (if inD o l r && wf l && wf r && negb (agree (ref_binop lib o l r) ob) then [(base + 2)%nat] else []) ++
+  (if inD lib o l r && wf l && wf r && negb (agree (ref_binop lib o l r) ob) then [(base + 2)%nat] else []) ++
   (if acceptable (to_outcome ob) then [] else [(base + 3)%nat]).
 
 Fixpoint check_ops (lib : golib) (same : bool) (d i : nat) (ops : list binop) (l r : value) (obs : list iobs) : list nat :=
@@ -123,7 +127,7 @@ Definition truth_agree (m : outcome) (ob : iobs) : bool :=
 Definition check_op_truth (lib : golib) (d i : nat) (o : binop) (l r : value) (ob : iobs) : list nat :=
   let base := (d * 2400 + i * 100)%nat in
   (if truth_agree (binop_eval lib false o l r) ob then [] else [(base + 1)%nat]) ++
-  (if inD o l r && wf l && wf r && negb (truth_agree (ref_binop lib o l r) ob) then [(base + 2)%nat] else []) ++
+  (if inD lib o l r && wf l && wf r && negb (truth_agree (ref_binop lib o l r) ob) then [(base + 2)%nat] else []) ++
   (if acceptable (to_outcome ob) then [] else [(base + 3)%nat]).
 Fixpoint check_ops_truth (lib : golib) (d i : nat) (ops : list binop) (l r : value) (obs : list iobs) : list nat :=
   match ops, obs with
@@ -150,7 +154,7 @@ Definition cres_agree (c : cres) (i : iobs) : bool :=
   | _, _ => false
   end.
 Definition dummy_lib : golib :=
-  {| parse_float := fun _ => None; fmt_float := fun _ => ""%string; pow_float := fun _ _ => nan; obj_str := fun _ _ => ""%string |}.
+  {| parse_float := fun _ => None; parse_int := fun _ => None; fmt_float := fun _ => ""%string; pow_float := fun _ _ => nan; obj_str := fun _ _ => ""%string |}.
 (* contexts: 4800 + i*10 + k; k = 1 tie, k = 4 context i disagrees with the one truthiness *)
 Fixpoint check_ctxs (i : nat) (cs : list bctx) (v : value) (obs : list iobs) : list nat :=
   match cs, obs with
